@@ -44,6 +44,7 @@ def ensure_pinned():
 if REPO_SRC not in sys.path:
     sys.path.insert(0, REPO_SRC)
 
+import copy
 import gc  # noqa: E402
 import warnings  # noqa: E402
 
@@ -296,6 +297,24 @@ class KernelFaulter:
 FAULTER = KernelFaulter()
 
 
+_MANAGERS = (mg.no_autodiff, mg.mem_guard_on, mg.mem_guard_off)
+_PRISTINE = [copy.deepcopy(dict(vars(m))) for m in _MANAGERS]  # taken at import, before any scope was entered
+
+
+def _reset_managers():
+    """put the three scope managers back into their import-time state, without assuming how they
+    keep their bookkeeping (instance attributes are restored, mutable class attributes emptied)"""
+    for m, d in zip(_MANAGERS, _PRISTINE):
+        vars(m).clear()
+        vars(m).update(copy.deepcopy(d))
+        for klass in type(m).__mro__:
+            if klass is object:
+                continue
+            for k, v in vars(klass).items():
+                if not k.startswith("__") and isinstance(v, (list, dict, set)):
+                    v.clear()
+
+
 def reset_process_state():
     """World reset between runs in one worker (DESIGN 2.7)."""
     PREEMPT.disarm()
@@ -303,9 +322,7 @@ def reset_process_state():
     # unwind switches
     _track.TRACK_GRAPH = True
     _mem.MEM_GUARD = True
-    for m in (mg.no_autodiff, mg.mem_guard_on, mg.mem_guard_off):
-        m._depth = 0
-        m._depth_tracker.clear()
+    _reset_managers()
     gc.collect()
     _mem._array_counter.clear()
     _mem._array_tracker.clear()
